@@ -566,6 +566,13 @@ def _dump_float(value: float) -> Union[float, str]:
     return value
 
 
+def _enum_to_json(enum_class: Type[Enum], value: int) -> Union[str, int]:
+    """JSON form of an enum value: the member's name, or the plain number when the
+    enum does not define it (enums are open: unknown numbers must be preserved)."""
+    member = enum_class.try_value(value)
+    return member.name if member.name is not None else int(member)
+
+
 def load_varint(stream: "SupportsRead[bytes]", first: bytes = b"") -> Tuple[int, bytes]:
     """
     Load a single varint value from a stream. Returns the value and the raw bytes read.
@@ -1579,19 +1586,21 @@ class Message(ABC):
                         if isinstance(value, typing.Iterable) and not isinstance(
                             value, str
                         ):
-                            output[cased_name] = [enum_class(el).name for el in value]
+                            output[cased_name] = [
+                                _enum_to_json(enum_class, el) for el in value
+                            ]
                         else:
                             # transparently upgrade single value to repeated
-                            output[cased_name] = [enum_class(value).name]
+                            output[cased_name] = [_enum_to_json(enum_class, value)]
                     elif value is None:
                         if include_default_values:
                             output[cased_name] = value
                     elif meta.optional:
                         enum_class = field_types[field_name].__args__[0]
-                        output[cased_name] = enum_class(value).name
+                        output[cased_name] = _enum_to_json(enum_class, value)
                     else:
                         enum_class = field_types[field_name]  # noqa
-                        output[cased_name] = enum_class(value).name
+                        output[cased_name] = _enum_to_json(enum_class, value)
                 elif meta.proto_type in (TYPE_FLOAT, TYPE_DOUBLE):
                     if field_is_repeated:
                         output[cased_name] = [_dump_float(n) for n in value]
@@ -1652,7 +1661,10 @@ class Message(ABC):
                 elif meta.proto_type == TYPE_ENUM:
                     enum_cls = cls._betterproto.cls_by_field[field_name]
                     if isinstance(value, list):
-                        value = [enum_cls.from_string(e) for e in value]
+                        value = [
+                            enum_cls.from_string(e) if isinstance(e, str) else e
+                            for e in value
+                        ]
                     elif isinstance(value, str):
                         value = enum_cls.from_string(value)
                 elif meta.proto_type in (TYPE_FLOAT, TYPE_DOUBLE):
